@@ -2,6 +2,7 @@ import Orx.KSRun
 import Orx.IW.Completed
 import Orx.IW.Weak
 import Orx.Generated.Orderings
+import Orx.GenThms.ProtoSim
 /-! # C05 The end is permanent: pulling past the end never revives elements -/
 namespace Orx.Props.C05
 open Orx Orx.KS
@@ -67,5 +68,29 @@ theorem source_completed_checks_are_seqcst :
     Orx.Generated.Orderings.completed_early_exit_store0 = .seqcst ∧
     Orx.Generated.Orderings.completed_mark_completed_store0 = .seqcst ∧
     Orx.Generated.Orderings.completed_drop_store0 = .seqcst := by decide
+
+
+/-- **The end as the source records it** (`get` and `fetch_n`, translated): after the wrapped iterator returned `None`
+the very next access is `completed.store(true, SeqCst)`, before anything is published on `yielded`; a short chunk does
+the same. -/
+theorem source_none_marks_completed {β : Type} (K : Option Nat → RSP.Prog β) (n b m : Nat) (acc : List Nat)
+    (hlt : acc.length < n) :
+    GenThms.Proto.child (GenThms.Proto.tPollOneExit K) (.src .none) = some (.stB .C .seqcst true (K none)) ∧
+    GenThms.Proto.child (GenThms.Proto.tCollectExit (GenThms.Proto.sPublish n b) m acc) (.src .none) =
+      some (.stB .C .seqcst true (GenThms.Proto.sPub n b acc)) := by
+  refine ⟨rfl, ?_⟩
+  simp [GenThms.Proto.tCollectExit, GenThms.Proto.child, GenThms.Proto.sPublish, hlt]
+
+/-- a pull that finds `completed` set right after reserving returns the end without touching the wrapped iterator:
+the first two accesses of every request, as translated -/
+theorem source_completed_is_checked_first (k : Nat) (r : IW.Req) :
+    GenThms.Proto.treeAt k (IW.Pc.resv r) = .faa .R .acqrel r.len fun b => .ldB .C .seqcst fun c =>
+      if c then .ret .fin else GenThms.Proto.waitTree k r b := rfl
+
+theorem source_requests_are_the_translated_functions (k : Nat) :
+    (∀ l, GenThms.Proto.reqTree k (.single l) = GenThms.Proto.treeAt k (.resv (.single l))) ∧
+    (∀ n, 1 ≤ n → GenThms.Proto.reqTree k (.chunk n) = GenThms.Proto.treeAt k (.resv (.chunk n))) ∧
+    GenThms.Proto.reqTree k .skip = GenThms.Proto.treeAt k .skp :=
+  ⟨GenThms.Proto.reqTree_single k, GenThms.Proto.reqTree_chunk k, GenThms.Proto.reqTree_skip k⟩
 
 end Orx.Props.C05
